@@ -1,6 +1,7 @@
 import S2T.Props.C12_Loops
 import S2T.Props.C12_Limits
 import S2T.Props.C12_Amplify
+import S2T.Props.C12_Xml
 /-!
 # C12 — extraction cost is bounded by the input; explicit limits hold
 
@@ -24,6 +25,10 @@ Parts:
 * `Props/C12_Amplify.lean` (namespace `S2T.C12.Amplify`): two mechanisms whose output follows a NUMBER written in the
   input — ODF `text:s text:c="N"` and the XLSX rectangle spanned by the used cells — with unboundedness theorems
   (for every multiple K an input exceeding it), partial bounds and kernel-evaluated bounded witnesses.
+* `Props/C12_Xml.lean`     (namespace `S2T.C12.Xml`): "entity tricks" — XML parts with internal entities behind any BOM /
+  leading whitespace, through the chain of parser calls GENERATED from the current source (keywords against the
+  installed defusedxml's defaults, `except` handlers, stripped data): text ≤ part size for every part under every
+  chain of refusing parsers, every generated stage refuses, unboundedness + witnesses for a chain with one lenient stage.
 
 WHAT NO THEOREM HERE SPEAKS ABOUT (run-time quantities, partial by nature): peak RSS and wall time
 themselves, the behaviour of `lzma` / `zlib` / `olefile.get_metadata()` / `pypdf` / `defusedxml` on
